@@ -1121,6 +1121,18 @@ def run(chk):
                         fails.append({"runtime": name, "site_fn": fn, "context": ctx, "newtype": nt.name, "form": form, "bad_argument": bad,
                                       "why": why, "files": p.files()})
                 shutil.rmtree(out, ignore_errors=True)
+            # the cross-module witness: the raw constructor is emitted, and rustc refuses it (private field)
+            for f in chk.findings:
+                if f.get("id") == "newtype-cross-module" and isinstance(f.get("witness"), dict):
+                    name = "c17xm%d" % os.getpid()
+                    out = os.path.join(SCRATCH, name)
+                    r = run_cases(dbg, [{"dir": os.path.join(SCRATCH, "xm"), "files": f["witness"]["files"], "entry": "main.incn",
+                                         "op": "project", "name": name, "out": out}])[0]
+                    if r["stage"] == "ok":
+                        rc, err, _ = cargo_build(out, name)
+                        runtime["cross_module_witness_build"] = ("rustc rejects: E0423 (private field of the tuple struct)" if rc != 0 and "E0423" in err
+                                                                 else "rc=%d %s" % (rc, err[-300:]))
+                    shutil.rmtree(out, ignore_errors=True)
         chk.coverage["runtime"] = runtime
     finally:
         shutil.rmtree(SCRATCH, ignore_errors=True)
